@@ -20,7 +20,7 @@ Open Scope string_scope.
 Open Scope list_scope.
 From Dials Require Import Base.Outcome Base.Runes Reflect.Ty Reflect.Ptrify Stack.Overlay Text.ParseInt Text.ParseIntProofs Text.Split Text.ParseText
   Sources.Flatten Sources.FlattenSpec Sources.Env Sources.EnvSpec Sources.Flags Sources.FlagsProofs Sources.FlagsFacts
-  Sources.EnvGuards Sources.FlagsDefaults.
+  Sources.EnvGuards Sources.FlagsDefaults Stack.StackSpec Sources.LayerBetween Sources.SourceLayers.
 Import ListNotations.
 
 (* Every leaf's flag is named by its source-specific tag if present, else by
@@ -190,7 +190,34 @@ Theorem flag_named_complex_pre_fix_refuted :
   class_of (flag_value PStd 0 0 named_fs named_tmpl [(S "gain", S "2i")]) = COk.
 Proof. exact flag_named_complex_pre_fix_refuted_l. Qed.
 
+(* End to end with C01 (flag_layer_between): either flag source between a
+   lower and a higher layer - dials' compose succeeds, is the by-name
+   stacking, and leaf by leaf (over; see C11's layer_between_leaf) the result
+   is the higher layer's leaf if set, else the flag's leaf if the flag was
+   given, else the lower layer's if set, else the default: unset flags do not
+   shadow lower layers. *)
+Theorem flag_layer_between : forall p ne te fs tmpl occs d lo hi src,
+  cfg_both fs -> alias_free (flag_alias_keys p) fs = true ->
+  Dials.Stack.Spine.spine_fields fs d = true ->
+  Dials.Stack.Spine.spine_fields (ptrify_fields fs) lo = true ->
+  Dials.Stack.Spine.spine_fields (ptrify_fields fs) hi = true ->
+  flag_value p ne te fs tmpl occs = Ok src ->
+  compose fs d [VStruct lo; VStruct src; VStruct hi] = Ok (stack fs d [VStruct lo; VStruct src; VStruct hi]) /\
+  eff_fields fs (Some (stack fs d [VStruct lo; VStruct src; VStruct hi])) =
+    over (ltys fs) (over (ltys fs) (over (ltys fs) (eff_fields fs (Some d)) (leaves_of (ptrify_fields fs) lo))
+                         (leaves_of (ptrify_fields fs) src))
+         (leaves_of (ptrify_fields fs) hi) /\
+  exists regs states,
+    flag_regs p ne te fs tmpl = Ok regs /\ run_occs regs [] occs = Ok states /\
+    Forall2 (fun r x =>
+               (~ In (rg_name r) (map fst occs) -> x = VNil) /\
+               (forall st k, st_lookup (rg_name r) states = Some st -> rg_kind r = Some k ->
+                             write_leaf p k (lf_ty (rg_leaf r)) (st_val st) = Ok x))
+            regs (leaves_of (ptrify_fields fs) src).
+Proof. exact flag_layer_between_l. Qed.
+
 Print Assumptions flag_names.
+Print Assumptions flag_layer_between.
 Print Assumptions flag_registration_never_shadows.
 Print Assumptions flag_out_of_range_is_error_float32.
 Print Assumptions flag_named_complex_pre_fix_refuted.
